@@ -1,9 +1,11 @@
 SPECIFICATION Spec
 CONSTANTS
   K = 3000
+  Ks = {3000}
+  MaxConn = 1
   UNIT = 250
   MaxT = 16000
   Dev = {}
   Record = FALSE
-INVARIANTS Inv_C10 Inv_C10_timer Inv_C10_detect Inv_C10_zero
+INVARIANTS Inv_C10 Inv_C10_timer Inv_C10_detect Inv_C10_zero Inv_C10_queue
 CHECK_DEADLOCK FALSE
